@@ -19,6 +19,7 @@ MONITORS = {
     "C15": ["monitors.c15"],
     "C16": ["monitors.c16"],
     "C17": ["monitors.c17"],
+    "C18": ["monitors.c18"],
     "C19": ["monitors.c19"],
     "C20": ["monitors.c20"],
 }
